@@ -298,6 +298,7 @@ pub fn fixed_zoo() -> Vec<ZooModule> {
     z.extend(random_modules(FIXED_SEED, 60, 40));
     z.extend(c03_shapes(3));
     z.extend(c05_pairs(60));
+    z.extend(c16_modules(40));
     z
 }
 
@@ -503,4 +504,148 @@ pub fn c05_pairs(n: usize) -> Vec<ZooModule> {
         let (a, b) = c05_pair(p);
         [a, b]
     }).collect()
+}
+
+// ---------------------------------------------------------------------------------------------
+// C16: SET / SEQUENCE definitions with mixed explicit tags, untagged builtin types and references
+
+/// helper definitions every C16 module starts with
+pub fn c16_helper_defs() -> Vec<Def> {
+    vec![
+        Def { name: "RefTagged".into(), tag: Some(Tag { class: TagClass::Application, number: 9 }), ty: Type::int(0, 15) },
+        Def { name: "RefPlainStr".into(), tag: None, ty: Type::Str { cs: Charset::Utf8, size: None } },
+        Def {
+            name: "RefChoice".into(),
+            tag: None,
+            ty: Type::Choice { alts: vec![Alt { name: "x".into(), tag: Some(Tag { class: TagClass::Context, number: 5 }), ty: Type::Boolean }, Alt { name: "y".into(), tag: Some(Tag { class: TagClass::Private, number: 2 }), ty: Type::Null }], root: None },
+        },
+        Def { name: "RefSeq".into(), tag: None, ty: Type::Sequence(Fields { comps: vec![comp("q", Type::int(0, 1), Presence::Mandatory)], root: None }) },
+        Def { name: "RefPriv".into(), tag: Some(Tag { class: TagClass::Private, number: 40 }), ty: Type::Boolean },
+    ]
+}
+
+/// untagged candidates with pairwise different outermost tags (and none that a random explicit
+/// tag can collide with: explicit UNIVERSAL numbers start at 40, APPLICATION avoids 9, PRIVATE
+/// avoids 2 and 40, context avoids 5)
+fn c16_untagged_pool() -> Vec<Type> {
+    vec![
+        Type::int(0, 7),
+        Type::Boolean,
+        Type::OctetString { size: Some(Size::fixed(1, false)) },
+        Type::BitString { size: Some(Size::fixed(9, false)), named: vec![] },
+        Type::Str { cs: Charset::Ia5, size: Some(Size::fixed(1, false)) },
+        Type::Null,
+        Type::Ref("RefTagged".into()),
+        Type::Ref("RefPlainStr".into()),
+        Type::Ref("RefChoice".into()),
+        Type::Ref("RefSeq".into()),
+        Type::Ref("RefPriv".into()),
+    ]
+}
+
+fn c16_tagged_pool() -> Vec<Type> {
+    vec![Type::int(0, 3), Type::int(0, 31), Type::Boolean, Type::int(0, 1023), Type::Str { cs: Charset::Numeric, size: Some(Size::fixed(2, false)) }, Type::Ref("RefSeq".into()), Type::Null, Type::OctetString { size: Some(Size::fixed(2, false)) }]
+}
+
+/// One C16 definition body from a stream of pseudo-random numbers: (components, root count)
+pub fn c16_fields(next: &mut dyn FnMut() -> u64) -> Fields {
+    let n = 2 + (next() % 4) as usize; // 2..5
+    let mode = next() % 5; // 0: none tagged (automatic), 1: all tagged, else mixed
+    let mut untagged = c16_untagged_pool();
+    let tagged = c16_tagged_pool();
+    let mut used: Vec<Tag> = Vec::new();
+    let mut comps = Vec::new();
+    for i in 0..n {
+        let explicit = match mode {
+            0 => false,
+            1 => true,
+            _ => next() % 2 == 0,
+        };
+        let (ty, tag) = if explicit || untagged.is_empty() {
+            let ty = tagged[(next() % tagged.len() as u64) as usize].clone();
+            let class = next() % 4;
+            let mut number = (next() % 12) as u32;
+            let mut t;
+            loop {
+                t = match class {
+                    0 => Tag { class: TagClass::Universal, number: 40 + number },
+                    1 => Tag { class: TagClass::Application, number: if number == 9 { 10 } else { number } },
+                    2 => Tag { class: TagClass::Context, number: if number == 5 { 6 } else { number } },
+                    _ => Tag { class: TagClass::Private, number: if number == 2 || number == 40 { 3 } else { number } },
+                };
+                if !used.contains(&t) {
+                    break;
+                }
+                number += 1;
+            }
+            used.push(t);
+            (ty, Some(t))
+        } else {
+            let k = (next() % untagged.len() as u64) as usize;
+            (untagged.remove(k), None)
+        };
+        let presence = match next() % 4 {
+            0 => Presence::Optional,
+            _ => Presence::Mandatory,
+        };
+        comps.push(Comp { name: format!("f{i}"), tag, ty, presence });
+    }
+    let root = if next() % 3 == 0 { Some(1 + (next() % n as u64) as usize) } else { None };
+    Fields { comps, root }
+}
+
+/// makes the additions' tags ascending in textual order (DESIGN.md section 4): additions are
+/// re-ordered by their outermost tag
+pub fn c16_normalise_additions(m: &Module, f: &mut Fields) {
+    if let Some(r) = f.root {
+        if let Ok(tags) = crate::refcodec::comp_tags(m, &f.comps) {
+            let mut adds: Vec<(Tag, Comp)> = f.comps[r..].iter().cloned().enumerate().map(|(i, c)| (tags[r + i], c)).collect();
+            adds.sort_by_key(|(t, _)| *t);
+            for (i, (_, c)) in adds.into_iter().enumerate() {
+                f.comps[r + i] = c;
+            }
+        }
+    }
+}
+
+pub fn c16_modules(n_base: usize) -> Vec<ZooModule> {
+    let mut state = 0x1234_5678_9abc_def0u64;
+    let mut next = move || {
+        state ^= state << 13;
+        state ^= state >> 7;
+        state ^= state << 17;
+        state >> 11
+    };
+    let mut out = Vec::new();
+    for chunk in 0..(n_base + 7) / 8 {
+        let mut defs = c16_helper_defs();
+        let helper = Module::simple("H", defs.clone());
+        for j in 0..8 {
+            let b = chunk * 8 + j;
+            if b >= n_base {
+                break;
+            }
+            let base = c16_fields(&mut next);
+            let n_root = base.root.unwrap_or(base.comps.len());
+            // the sampled order, the reversed root order and a rotation; SET and (for the sampled order) SEQUENCE
+            for (p, perm) in [0usize, 1, 2].iter().enumerate() {
+                let mut f = base.clone();
+                match perm {
+                    1 => f.comps[..n_root].reverse(),
+                    2 => f.comps[..n_root].rotate_left(1),
+                    _ => {}
+                }
+                for (i, c) in f.comps.iter_mut().enumerate() {
+                    c.name = format!("f{i}");
+                }
+                c16_normalise_additions(&helper, &mut f);
+                defs.push(Def { name: format!("Set{b}p{p}"), tag: None, ty: Type::Set(f.clone()) });
+                if p == 1 {
+                    defs.push(Def { name: format!("Seq{b}p{p}"), tag: None, ty: Type::Sequence(f) });
+                }
+            }
+        }
+        out.push(ZooModule { module: Module::simple(&format!("C16M{chunk}"), defs), conformance: true, group: "c16".into(), meta: serde_json::Value::Null });
+    }
+    out
 }
